@@ -263,6 +263,53 @@ func genC06() {
 	g.def("c06_root_err_checked", "bool", fmt.Sprintf("%v", rootChecked),
 		"the callback tests the error fs.WalkDir reports BEFORE it skips the root path \".\" (false: an error of Stat/ReadDir of the root is dropped)")
 
+	// 1c. the symlink target: the second argument of tar.FileInfoHeader is a local
+	// whose only assignment in walkFS is `<link>, err = <fsys>.Readlink(<path>)`
+	linkVerbatim := false
+	if walk != nil {
+		linkVar := ""
+		ast.Inspect(walk, func(n ast.Node) bool {
+			if c, ok := n.(*ast.CallExpr); ok && exprText(c.Fun) == "tar.FileInfoHeader" && len(c.Args) == 2 {
+				if id, ok := c.Args[1].(*ast.Ident); ok {
+					linkVar = id.Name
+				} else {
+					linkVar = "<expr>"
+				}
+			}
+			return true
+		})
+		if linkVar == "" {
+			fail("%s: walkFS: no tar.FileInfoHeader(info, link)", rel)
+		} else if linkVar != "<expr>" {
+			assigns, fromReadlink := 0, 0
+			ast.Inspect(walk, func(n ast.Node) bool {
+				switch x := n.(type) {
+				case *ast.AssignStmt:
+					for k, l := range x.Lhs {
+						if id, ok := l.(*ast.Ident); ok && id.Name == linkVar {
+							assigns++
+							if len(x.Rhs) == 1 && k == 0 {
+								if c, ok := x.Rhs[0].(*ast.CallExpr); ok {
+									if sel, ok := c.Fun.(*ast.SelectorExpr); ok && sel.Sel.Name == "Readlink" && len(c.Args) == 1 {
+										fromReadlink++
+									}
+								}
+							}
+						}
+					}
+				case *ast.IncDecStmt:
+					if id, ok := x.X.(*ast.Ident); ok && id.Name == linkVar {
+						assigns++
+					}
+				}
+				return true
+			})
+			linkVerbatim = assigns == 1 && fromReadlink == 1
+		}
+	}
+	g.def("c06_link_target_verbatim", "bool", fmt.Sprintf("%v", linkVerbatim),
+		"the symlink target handed to tar.FileInfoHeader is a local assigned exactly once, from Readlink (false: walkFS computes it some other way)")
+
 	// 2. writeTar closes the tar writer it was given
 	wt := findFunc(rel, "", "writeTar")
 	closes := false
